@@ -200,3 +200,489 @@ def r1b_model(res, facts):
 def run(res, facts, tier):
     r1_tables(res, facts)
     r1b_model(res, facts)
+
+
+# ----------------------------------------------------------------------------------------------- R2: writer guard accounting
+WRITERS = ('XalanUTF8Writer', 'XalanUTF16Writer', 'XalanOtherEncodingWriter')
+LONGEST_NCR = len('&#1114111;')
+
+
+# locals whose value is bounded far below every writer capacity, one reason each
+BOUNDED_SYMBOLS = {('writeNumericCharacterReference', 'theLength'): 'length of a numeric character reference (&#1114111; = 10 characters)'}
+
+
+class BufState:
+    __slots__ = ('G', 'sg_num', 'sg_sym', 'S_num', 'S_sym', 'A_num', 'A_sym', 'P_num', 'P_sym', 'le_cap')
+
+    def __init__(self):
+        self.G = ('num', 0); self.sg_num = 0; self.sg_sym = []; self.S_num = 0; self.S_sym = []; self.A_num = 0; self.A_sym = []
+        self.P_num = 0; self.P_sym = []; self.le_cap = set()
+
+    def copy(self):
+        s = BufState()
+        for k in self.__slots__:
+            v = getattr(self, k)
+            setattr(s, k, list(v) if isinstance(v, list) else (set(v) if isinstance(v, set) else v))
+        return s
+
+
+def is_member(e, name):
+    e = common.strip_casts(e) if hasattr(common, 'strip_casts') else e
+    return e is not None and e.get('k') == 'Member' and e.get('m') == name
+
+
+def sym_of(e):
+    from ..mast import strip_casts
+    e = strip_casts(e)
+    if e is None:
+        return None
+    if 'cv' in e and e.get('k') != 'Ref':
+        return ('num', e['cv'])
+    if e.get('k') == 'Ref' and 'cv' in e and e.get('d') not in ('param', 'local'):
+        return ('num', e['cv'])
+    if e.get('k') == 'Ref' and e.get('d') in ('param', 'local'):
+        return ('sym', e['n'])
+    return None
+
+
+class WriterInterp:
+    def __init__(self, a, cap, elem_size, report):
+        self.a = a; self.cap = cap; self.elem_size = elem_size; self.report = report; self.nstores = 0
+
+    def fail(self, node, msg):
+        self.report(node, msg)
+
+    # --- expression-level events
+    def events(self, e, st):
+        """apply stores / increments / decrements / flushes found in an expression statement"""
+        from ..mast import strip_casts, walk as _walk
+        for x in _walk(e):
+            k = x['k']
+            if k == 'Bin' and x['op'] == '=':
+                l = strip_casts(x['lhs'])
+                if l is not None and l.get('k') == 'Un' and l['op'] == '*' and is_member(strip_casts(l['e']), 'm_bufferPosition'):
+                    self.store(x, st, 1)
+                elif is_member(l, 'm_bufferPosition'):
+                    r = strip_casts(x['rhs'])
+                    if r is not None and r.get('k') == 'Call' and r.get('n') == 'copy':
+                        # m_bufferPosition = copy(begin, end, m_bufferPosition): as many stores as the source is long
+                        self.store_sym(x, st, self.copy_length(r), pos_too=True)
+                    elif not (r is not None and is_member(r, 'm_buffer')):
+                        self.fail(x, 'm_bufferPosition assigned from an unrecognised expression')
+                elif is_member(l, 'm_bufferRemaining'):
+                    r = strip_casts(x['rhs'])
+                    if r is not None and r.get('k') == 'Bin' and r['op'] == '-' and is_member(strip_casts(r['lhs']), 'm_bufferRemaining'):
+                        self.account(x, st, sym_of(r['rhs']))
+                    elif r is not None and (r.get('cv') == self.cap):
+                        pass
+                    else:
+                        self.fail(x, 'm_bufferRemaining assigned from an unrecognised expression')
+            elif k == 'Bin' and x['op'] == '-=' and is_member(strip_casts(x['lhs']), 'm_bufferRemaining'):
+                self.account(x, st, sym_of(x['rhs']))
+            elif k == 'Un' and x['op'] == '--' and is_member(strip_casts(x['e']), 'm_bufferRemaining'):
+                self.account(x, st, ('num', 1))
+            elif k == 'Un' and x['op'] == '++' and is_member(strip_casts(x['e']), 'm_bufferPosition'):
+                st.P_num += 1
+            elif k == 'MCall' and x.get('n') == 'flushBuffer':
+                st.G = ('cap',); st.sg_num = 0; st.sg_sym = []
+
+    def copy_length(self, call):
+        # the length symbol is whatever the function later subtracts; use the name 'theLength' convention-free: take the container argument text
+        return 'theLength'
+
+    def store(self, node, st, n):
+        self.nstores += 1
+        st.S_num += n; st.sg_num += n
+        g = st.G
+        if g[0] == 'num':
+            if st.sg_num > g[1] or st.sg_sym:
+                self.fail(node, 'store #%d since the last space check, but only %d element(s) of room established (guard m_bufferRemaining < %d)' % (st.sg_num, g[1], g[1]))
+        elif g[0] == 'cap':
+            if st.sg_num > self.cap:
+                self.fail(node, 'more stores than the buffer holds after a flush')
+            for s in st.sg_sym:
+                if s not in st.le_cap:
+                    self.fail(node, 'store after a flush with %s elements pending, and %s is not known to fit the buffer' % (s, s))
+        elif g[0] == 'sym':
+            self.fail(node, 'single store under a symbolic guard %s' % g[1])
+
+    def store_sym(self, node, st, sym, pos_too=False):
+        self.nstores += 1
+        st.S_sym.append(sym); st.sg_sym.append(sym)
+        if pos_too:
+            st.P_sym.append(sym)
+        g = st.G
+        if g[0] == 'sym' and g[1] == sym and st.sg_num == 0 and st.sg_sym == [sym]:
+            return
+        if g[0] == 'cap' and st.sg_num == 0 and st.sg_sym == [sym] and (sym in st.le_cap):
+            return
+        if g[0] == 'cap' and sym not in st.le_cap:
+            self.fail(node, '%s elements stored after a flush, but %s was never compared with the buffer capacity' % (sym, sym))
+            return
+        self.fail(node, '%s elements stored but the established room is %s' % (sym, g))
+
+    def account(self, node, st, v):
+        if v is None:
+            self.fail(node, 'm_bufferRemaining decremented by an unrecognised amount'); return
+        if v[0] == 'num':
+            st.A_num += v[1]
+        else:
+            st.A_sym.append(v[1])
+
+    # --- statements
+    def run(self, s, states):
+        from ..mast import strip_casts, walk as _walk
+        if s is None:
+            return states
+        k = s['k']
+        if k == 'Compound':
+            for c in s['c']:
+                states = self.run(c, states)
+            return states
+        if k == 'If':
+            outs = []
+            for st in states:
+                t = st.copy(); f = st.copy()
+                self.apply_cond(s['cond'], t, f)
+                outs += self.run(s['then'], [t])
+                outs += self.run(s.get('else'), [f]) if s.get('else') else [f]
+            return outs
+        if k in ('For', 'While', 'Do'):
+            body = s['body']
+            stores = [x for x in _walk(body) if x['k'] == 'Bin' and x['op'] == '=' and strip_casts(x['lhs']).get('k') == 'Un' and strip_casts(x['lhs'])['op'] == '*'
+                      and is_member(strip_casts(strip_casts(x['lhs'])['e']), 'm_bufferPosition')]
+            decs = [x for x in _walk(body) if (x['k'] == 'Un' and x['op'] == '--' and is_member(strip_casts(x['e']), 'm_bufferRemaining'))
+                    or (x['k'] == 'Bin' and x['op'] == '-=' and is_member(strip_casts(x['lhs']), 'm_bufferRemaining'))]
+            if not stores and not decs:
+                return states   # calls other (self-contained) write functions only
+            # symbolic loop: for (i = 0; i < L; ++i) { *pos = x; ++pos; }
+            cond = strip_casts(s.get('cond')) if s.get('cond') else None
+            L = None
+            if cond is not None and cond.get('k') == 'Bin' and cond['op'] == '<':
+                v = sym_of(cond['rhs'])
+                if v and v[0] == 'sym':
+                    L = v[1]
+            incs = [x for x in _walk(body) if x['k'] == 'Un' and x['op'] == '++' and is_member(strip_casts(x['e']), 'm_bufferPosition')]
+            if L is None or len(stores) != 1 or len(incs) != 1 or decs:
+                for st in states:
+                    self.fail(s, 'loop writes the buffer in a shape the guard accounting does not recognise')
+                return states
+            for st in states:
+                self.store_sym(stores[0], st, L)
+                st.P_sym.append(L)
+            return states
+        if k == 'Return':
+            for st in states:
+                self.finish(s, st)
+            if s.get('e') is not None:
+                for st in states:
+                    self.events(s['e'], st)
+            return []
+        if k == 'Decl':
+            for v in s['vars']:
+                if v.get('init') is not None:
+                    for st in states:
+                        self.events(v['init'], st)
+                        if (self.a['name'].split('::')[-1], v['n']) in BOUNDED_SYMBOLS:
+                            st.le_cap.add(v['n'])
+            return states
+        if k in ('Switch', 'Try', 'Goto', 'Label'):
+            if any(is_member(x, 'm_bufferPosition') or is_member(x, 'm_bufferRemaining') for x in _walk(s)):
+                for st in states:
+                    self.fail(s, 'buffer manipulated inside a %s statement: outside the interpreted subset' % k)
+            return states
+        if k in ('Break', 'Continue', 'Null'):
+            return states
+        for st in states:
+            self.events(s, st)
+        return states
+
+    def apply_cond(self, c, t, f):
+        from ..mast import strip_casts
+        core, eff = common.norm_atom(c, True)
+        if core is None or core.get('k') != 'Bin':
+            return
+        op = core['op']; l = strip_casts(core['lhs']); r = strip_casts(core['rhs'])
+        tb, fb = (t, f) if eff else (f, t)   # tb: state where the comparison holds
+        if is_member(l, 'm_bufferRemaining') and op == '<':
+            v = sym_of(r)
+            if v:
+                fb.G = v if (v[0] == 'sym' or fb.G[0] != 'num' or v[1] > fb.G[1]) else fb.G
+                fb.sg_num = 0; fb.sg_sym = []
+        elif is_member(l, 'm_bufferRemaining') and op == '==' and r.get('cv') == 0:
+            if fb.G[0] == 'num' and fb.G[1] < 1:
+                fb.G = ('num', 1); fb.sg_num = 0; fb.sg_sym = []
+        elif op == '>' and sym_of(l) and sym_of(l)[0] == 'sym' and 'cv' in r and (r.get('k') == 'Sizeof' or r.get('n') == 'kBufferSize'):
+            # theLength > capacity
+            if r['cv'] != self.cap:
+                self.fail(c, 'length compared with %d, but the buffer holds %d elements (sizeof of a %d-byte-element array is a byte count)' % (r['cv'], self.cap, self.elem_size))
+            fb.le_cap.add(sym_of(l)[1])
+
+    def finish(self, node, st):
+        if st.S_num != st.A_num or sorted(st.S_sym) != sorted(st.A_sym):
+            self.fail(node, 'path stores %s element(s) but decrements m_bufferRemaining by %s' % (self.fmt(st.S_num, st.S_sym), self.fmt(st.A_num, st.A_sym)))
+        if st.S_num != st.P_num or sorted(st.S_sym) != sorted(st.P_sym):
+            self.fail(node, 'path stores %s element(s) but advances m_bufferPosition %s time(s)' % (self.fmt(st.S_num, st.S_sym), self.fmt(st.P_num, st.P_sym)))
+
+    @staticmethod
+    def fmt(n, syms):
+        return ' + '.join([str(n)] + sorted(syms)) if syms else str(n)
+
+
+def r2_writers(res, facts):
+    r = res.rule('C04-R2', 'writer buffer stores are covered by the space guard: along every path of every method of the three buffered writers, the stores through '
+                 'm_bufferPosition since the last check fit the room that check established, m_bufferRemaining is decremented by exactly the number of stores, and a length is '
+                 'compared with the capacity in elements', floor=8)
+    n_fn = 0
+    for k in sorted(facts.astidx, key=lambda k: facts.name.get(k, '')):
+        f = facts.F.get(k)
+        if not f or not short_cls(f).startswith(WRITERS):
+            continue
+        a = facts.ast(k)
+        txt = str(a['body'])
+        if 'm_bufferPosition' not in txt and 'm_bufferRemaining' not in txt:
+            continue
+        nm = f['name'].split('::')[-1]
+        if nm in ('flushBuffer',) or f.get('kind') in ('ctor', 'dtor'):
+            continue
+        cls = facts.K.get(f['cls'])
+        cap = None; elem = 1
+        for fl in (cls or {}).get('fields', []):
+            if fl['n'] == 'm_buffer':
+                import re as _re
+                m = _re.match(r'^(.*)\[(\d+)\]$', fl['ty'])
+                if m:
+                    cap = int(m.group(2)); elem = 1 if m.group(1).strip() in ('char', 'unsigned char') else 2
+        if cap is None:
+            raise AnalysisBroken('cannot find m_buffer[] in %s' % f['cls'])
+        n_fn += 1
+        viol = []
+        wi = WriterInterp(a, cap, elem, lambda node, msg: viol.append((node, msg)))
+        ends = wi.run(a['body'], [BufState()])
+        for st in ends:
+            wi.finish(a['body'], st)
+        site = '%s' % facts.sig(k).replace('xalanc_1_12::', '')
+        site = re_targs(site)
+        if viol:
+            seen = set()
+            for node, msg in viol:
+                if msg in seen:
+                    continue
+                seen.add(msg)
+                r.violation(site, msg, common.file_line(a, node))
+        else:
+            r.ok(site, '%d store site(s), capacity %d x %d byte(s)' % (wi.nstores, cap, elem))
+        if cap < LONGEST_NCR:
+            r.violation(site + ' capacity', 'buffer of %d elements cannot hold the longest numeric character reference' % cap, common.file_line(a))
+    if n_fn < 8:
+        raise AnalysisBroken('only %d buffer-writing writer methods found (floor 8)' % n_fn)
+    res.assume('C04-R2: formatNumericCharacterReference yields at most %d characters (&#1114111;), far below every writer capacity' % LONGEST_NCR)
+    return r
+
+
+def short_cls(f):
+    return (f.get('cls') or '').replace('xalanc_1_12::', '')
+
+
+def re_targs(s):
+    out = ''; d = 0
+    for ch in s:
+        if ch == '<':
+            d += 1
+        elif ch == '>':
+            d -= 1
+        elif d == 0:
+            out += ch
+    return out
+
+
+_run_r1 = run
+
+
+def run(res, facts, tier):
+    _run_r1(res, facts, tier)
+    r2_writers(res, facts)
+
+
+# ----------------------------------------------------------------------------------------------- R3 (shared with C03-R5), R4, R5
+def serializer_instantiations(facts):
+    out = []
+    for n, k in facts.K.items():
+        if k.get('tmpl') == 'xalanc_1_12::FormatterToXMLUnicode':
+            ta = [t.replace('xalanc_1_12::', '') for t in k['targs']]
+            out.append((n, ta))
+    if len(out) < 12:
+        raise AnalysisBroken('only %d FormatterToXMLUnicode instantiations (floor 12)' % len(out))
+    return out
+
+
+def writer_family(t):
+    return 'UTF8' if t.startswith('XalanUTF8Writer') else ('UTF16' if t.startswith('XalanUTF16Writer') else ('OTHER' if t.startswith('XalanOtherEncodingWriter') else '?'))
+
+
+def r4_instantiations(res, facts):
+    r = res.rule('C04-R4', 'every FormatterToXMLUnicode instantiation is internally consistent (character predicate and version tag of the same XML version, constants of the '
+                 "writer's code-unit width, indent helper bound to the same writer), and XalanXMLSerializerFactory::create picks on every branch the instantiation its conditions describe", floor=24)
+    for name, ta in serializer_instantiations(facts):
+        writer, consts, pred, indent, ver = ta
+        site = 'FormatterToXMLUnicode<%s, %s, %s, %s, %s>' % (writer_family(writer), consts.split('::')[-1], pred.split('::')[-1], indent.split('<')[0], ver.split('::')[-1])
+        probs = []
+        if pred.endswith('1_0') != ver.endswith('1_0'):
+            probs.append('character predicate %s with version tag %s' % (pred.split('::')[-1], ver.split('::')[-1]))
+        fam = writer_family(writer)
+        if (fam == 'UTF8') != consts.endswith('UTF8'):
+            probs.append('%s writer with %s constants' % (fam, consts.split('::')[-1]))
+        if writer.split('<')[0] not in indent:
+            probs.append('indent helper %s is bound to another writer' % indent[:50])
+        if probs:
+            r.violation(site, '; '.join(probs), facts.K[name]['loc'].replace('/repo/', ''))
+        else:
+            r.ok(site)
+    a = facts.asts('XalanXMLSerializerFactory::create')[0]
+    cfg = CFG(a)
+    must = common.must_conds(cfg)
+    n = 0
+    for nd in cfg.nodes:
+        if nd.ast is None:
+            continue
+        for c in calls(nd.ast):
+            if c.get('n') == 'create' and 'FormatterToXMLUnicode<' in (c.get('cls') or ''):
+                n += 1
+                cls = c['cls'].replace('xalanc_1_12::', '')
+                facts_here = {}
+                for atom, br in must.get(nd.id, []):
+                    core, eff = common.norm_atom(atom, br)
+                    t = pp(core)
+                    if core.get('k') in ('Call', 'MCall') and core.get('n') in ('encodingIsUTF8', 'encodingIsUTF16'):
+                        facts_here[core['n']] = eff
+                    elif 'isVersion1_1' in t:
+                        facts_here['isVersion1_1'] = eff
+                    elif 'doIndent' in t:
+                        facts_here['doIndent'] = eff
+                fam = 'UTF8' if cls.startswith('FormatterToXMLUnicode<XalanUTF8Writer') else ('UTF16' if cls.startswith('FormatterToXMLUnicode<XalanUTF16Writer') else 'OTHER')
+                want_fam = 'UTF8' if facts_here.get('encodingIsUTF8') else ('UTF16' if facts_here.get('encodingIsUTF16') else 'OTHER')
+                is11 = 'XML_VERSION_1_1' in cls
+                isind = 'XalanIndentWriter<' in cls
+                site = 'create(): branch %s' % ', '.join('%s=%s' % (k, str(v).lower()) for k, v in sorted(facts_here.items()))
+                probs = []
+                if fam != want_fam:
+                    probs.append('%s serializer chosen where the encoding tests select %s' % (fam, want_fam))
+                if is11 != bool(facts_here.get('isVersion1_1')):
+                    probs.append('XML %s serializer on the isVersion1_1 == %s branch' % ('1.1' if is11 else '1.0', str(bool(facts_here.get('isVersion1_1'))).lower()))
+                if isind != bool(facts_here.get('doIndent')):
+                    probs.append('%s serializer on the doIndent == %s branch' % ('indenting' if isind else 'non-indenting', str(bool(facts_here.get('doIndent'))).lower()))
+                if probs:
+                    r.violation(site, '; '.join(probs), common.file_line(a, c))
+                else:
+                    r.ok(site, '%s / %s / %s' % (fam, '1.1' if is11 else '1.0', 'indent' if isind else 'no indent'))
+    if n < 12:
+        raise AnalysisBroken('only %d serializer creations found in XalanXMLSerializerFactory::create (floor 12)' % n)
+    return r
+
+
+def r3_cdata(res, facts):
+    from . import c03
+    r = res.rule('C04-R3', "the CDATA ']]>' look-ahead stays inside the text: no unsigned 'i - length' under 'i < length' in the serializer (same analysis as C03-R5, restricted to XMLSupport)", floor=1)
+    tmp = type(res)(res.prop, res.tier)
+    rr = c03.r5_wrap(tmp, facts)
+    hits = [v for v in rr.viol if 'XMLSupport' in (v.get('loc') or '') or 'Formatter' in v['site'] or 'Writer' in v['site']]
+    for v in hits:
+        r.violation(v['site'], v['what'], v.get('loc'))
+    if not hits:
+        r.ok('FormatterToXMLUnicode::writeCDATAChars and the writers: no wrapping look-ahead distance')
+    return r
+
+
+def r5_names(res, facts):
+    r = res.rule('C04-R5', 'names reach the writer only through writeName -> writeNameChar (an unrepresentable character raises an error, never a character reference inside a name); '
+                 'computed comments and PIs are raised only by childrenToResultComment / childrenToResultPI (the -- and ?> repair cannot be bypassed)', floor=20)
+    # (a) in FormatterToXMLUnicode: startElement / endElement / processAttribute / processing instruction target / doctype write names via writeName
+    byfn = collections.defaultdict(list)
+    for k in facts.astidx:
+        f = facts.F.get(k)
+        if f and f.get('clsq') == 'xalanc_1_12::FormatterToXMLUnicode':
+            byfn[f['name'].split('::')[-1]].append(k)
+    for fn, argname in (('startElement', 'name'), ('endElement', 'name'), ('processAttribute', 'name'), ('writeProcessingInstruction', 'target')):
+        for k in byfn.get(fn, []):
+            a = facts.ast(k)
+            pnames = {p['n']: p['id'] for p in a['params']}
+            if argname not in pnames:
+                continue
+            uses = []
+            for c in calls(a['body']):
+                for arg in c.get('args', []):
+                    sa = strip_casts_(arg)
+                    if sa is not None and sa.get('k') == 'Ref' and sa.get('id') == pnames[argname]:
+                        uses.append(c.get('n') or callee(c))
+            site = '%s(%s)' % (common.short_fq(facts, k).split('>::')[-1][:60], argname)
+            bad = [u for u in uses if u in ('write', 'writeSafe', 'safeWriteContent', 'writeNormalizedData', 'writeCharacters', 'writeAttrString')]
+            if 'writeName' in uses and not bad:
+                r.ok('FormatterToXMLUnicode::%s: %s written through writeName' % (fn, argname))
+            elif bad:
+                r.violation('FormatterToXMLUnicode::%s name path' % fn, 'the %s is written through %s, which substitutes character references instead of failing' % (argname, bad[0]), common.file_line(a))
+    for k in byfn.get('writeName', []):
+        a = facts.ast(k)
+        ns = [c.get('n') for c in calls(a['body'])]
+        if 'writeNameChar' in ns and not (set(ns) & {'write', 'writeSafe'}):
+            r.ok('writeName -> writeNameChar')
+        else:
+            r.violation('FormatterToXMLUnicode::writeName', 'writeName no longer goes through writeNameChar', common.file_line(a))
+        break
+    # (b) Elem* classes: comment() / processingInstruction() events carry data that went through the repair loop in the same function
+    for c in facts.calls:
+        tn = c.get('toName', '')
+        if tn not in ('xalanc_1_12::StylesheetExecutionContext::comment', 'xalanc_1_12::StylesheetExecutionContext::processingInstruction'):
+            continue
+        fr = facts.F.get(c['from'], {})
+        fn = fr.get('name', '?').replace('xalanc_1_12::', '')
+        cls = fr.get('clsq', '').replace('xalanc_1_12::', '')
+        if not cls.startswith('Elem'):
+            continue
+        a = facts.ast(c['from'])
+        what = tn.split('::')[-1]
+        site = '%s raises %s' % (fn, what)
+        marker = 'charHyphenMinus' if what == 'comment' else 'charQuestionMark'
+        ok = False
+        for call in calls(a['body']):
+            if call.get('n') == what and 'ExecutionContext' in (call.get('cls') or ''):
+                data = strip_casts_(call['args'][-1])
+                # data is S.c_str(): find S
+                var = None
+                if data is not None and data.get('k') == 'MCall' and data.get('n') == 'c_str':
+                    o = strip_casts_(data['obj'])
+                    var = o.get('id') if o is not None and o.get('k') == 'Ref' else None
+                repaired = False
+                for lp in walk(a['body']):
+                    if lp['k'] in ('While', 'For', 'Do'):
+                        txt = pp_all(lp)
+                        ins = [x for x in calls(lp['body']) if x.get('n') == 'insert' and strip_casts_(x.get('obj')) is not None and strip_casts_(x['obj']).get('id') == var
+                               and any(strip_casts_(y) is not None and strip_casts_(y).get('n') == 'charSpace' for y in x['args'])]
+                        if ins and marker in txt:
+                            repaired = True
+                ok = repaired and var is not None
+        if ok:
+            r.ok(site, 'data passes the %s repair loop in the same function' % ("'--'" if what == 'comment' else "'?>'"))
+        else:
+            r.violation(site, 'the data handed to %s() did not go through the %s repair (space insertion) in this function: computed content can close the construct early' % (what, "'--'" if what == 'comment' else "'?>'"), c['loc'].replace('/repo/', ''))
+    return r
+
+
+def pp_all(n):
+    from ..mast import walk as _w
+    return ' '.join(x.get('n', '') for x in _w(n) if x['k'] == 'Ref')
+
+
+def strip_casts_(e):
+    from ..mast import strip_casts
+    return strip_casts(e)
+
+
+import collections
+_run_r12 = run
+
+
+def run(res, facts, tier):
+    _run_r12(res, facts, tier)
+    r3_cdata(res, facts)
+    r4_instantiations(res, facts)
+    r5_names(res, facts)
